@@ -284,17 +284,26 @@ func (tx *Tx) buildBucketMetaIdx(bucket string, key []byte, bucketMetaTemp Bucke
 	}
 
 	if updateFlag {
+		if err := verifFS("create", tx.db.getBucketMetaFilePath(bucket), 0, nil); err != nil {
+			return err
+		}
 		fd, err := os.OpenFile(tx.db.getBucketMetaFilePath(bucket), os.O_CREATE|os.O_RDWR, 0644)
 		defer fd.Close()
 		if err != nil {
 			return err
 		}
 
+		if err := verifFS("write", tx.db.getBucketMetaFilePath(bucket), 0, bucketMeta.Encode()); err != nil {
+			return err
+		}
 		if _, err = fd.WriteAt(bucketMeta.Encode(), 0); err != nil {
 			return err
 		}
 
 		if tx.db.opt.SyncEnable {
+			if err := verifFS("sync", tx.db.getBucketMetaFilePath(bucket), 0, nil); err != nil {
+				return err
+			}
 			if err = fd.Sync(); err != nil {
 				return err
 			}
@@ -546,15 +555,18 @@ func (tx *Tx) Rollback() error {
 
 // lock locks the database based on the transaction type.
 func (tx *Tx) lock() {
+	_ = verifFS("lock-req", tx.db.opt.Dir, int64(tx.id), nil)
 	if tx.writable {
 		tx.db.mu.Lock()
 	} else {
 		tx.db.mu.RLock()
 	}
+	_ = verifFS("lock-acq", tx.db.opt.Dir, int64(tx.id), nil)
 }
 
 // unlock unlocks the database based on the transaction type.
 func (tx *Tx) unlock() {
+	_ = verifFS("unlock", tx.db.opt.Dir, int64(tx.id), nil)
 	if tx.writable {
 		tx.db.mu.Unlock()
 	} else {
